@@ -30,6 +30,23 @@ GROUPS = {
     }],
 }
 
+ALPHA = 'all byte strings of exactly that length over the 38-symbol alphabet of the property (digits, signs, ., e/E, x, o, hex letters, _, ~, the letters of null/true/false/inf/nan in both cases); f64::from_str replaced by a stub of its documented grammar (value of decimal floats trusted to std)'
+GROUPS['C08'] = [{
+    'crate': 'saphyr', 'appends': {'scalar.rs': 'scalar_harness.rs'}, 'timeout': 7000,
+    'harnesses': {
+        'c08_untagged_len1': {'obl': 'parse_from_cow.core-schema.len1', 'kind': 'bounded', 'bound': 'length 1; ' + ALPHA, 'what': 'untagged plain scalar: typed null/bool/int/float only for core-schema literals with the denoted value, JSON literals / 64-bit ints / floats recognised, else identical string', 'tier': 'quick'},
+        'c08_untagged_len2': {'obl': 'parse_from_cow.core-schema.len2', 'kind': 'bounded', 'bound': 'length 2; ' + ALPHA, 'what': 'same, length 2', 'tier': 'quick'},
+        'c08_untagged_len3': {'obl': 'parse_from_cow.core-schema.len3', 'kind': 'bounded', 'bound': 'length 3; ' + ALPHA, 'what': 'same, length 3', 'tier': 'quick'},
+        'c08_untagged_len4': {'obl': 'parse_from_cow.core-schema.len4', 'kind': 'bounded', 'bound': 'length 4; ' + ALPHA, 'what': 'same, length 4', 'tier': 'thorough'},
+        'c08_untagged_len5': {'obl': 'parse_from_cow.core-schema.len5', 'kind': 'bounded', 'bound': 'length 5; ' + ALPHA, 'what': 'same, length 5', 'tier': 'thorough'},
+        'c08_tagged_len2': {'obl': 'parse_from_cow_and_metadata.tagged.len2', 'kind': 'bounded', 'bound': 'length 2, tags !!int !!float !!bool !!null !!str and a foreign tag; ' + ALPHA, 'what': 'tagged plain scalar: exactly the type of the tag agreeing with the untagged reading, or None; decimal numbers, true/false, null/~ accepted under their own tag; !!str / foreign leave the string', 'tier': 'quick'},
+        'c08_tagged_len1': {'obl': 'parse_from_cow_and_metadata.tagged.len1', 'kind': 'bounded', 'bound': 'length 1; ' + ALPHA, 'what': 'same, length 1', 'tier': 'thorough'},
+        'c08_tagged_len3': {'obl': 'parse_from_cow_and_metadata.tagged.len3', 'kind': 'bounded', 'bound': 'length 3; ' + ALPHA, 'what': 'same, length 3', 'tier': 'thorough'},
+        'c08_tagged_len4': {'obl': 'parse_from_cow_and_metadata.tagged.len4', 'kind': 'bounded', 'bound': 'length 4; ' + ALPHA, 'what': 'same, length 4', 'tier': 'thorough'},
+        'c08_nonplain_and_owned': {'obl': 'parse_from_cow_and_metadata.nonplain-and-owned', 'kind': 'bounded', 'bound': 'length 3, 4 non-plain styles x 7 tag choices; ' + ALPHA, 'what': 'quoted/block scalars stay strings with identical content; ScalarOwned resolves like Scalar', 'tier': 'thorough'},
+    },
+}]
+
 CACHE = os.path.join(ROOT, '.cache')
 
 
